@@ -128,7 +128,12 @@ func (g *FnGen) call(instr ssa.Instruction, c *ssa.CallCommon) Val {
 		args = append(args, g.val(a))
 	}
 	callee := c.StaticCallee()
-	g.callAsserts(instr, short, n)
+	g.callAsserts(instr, short, n, args)
+	if strings.HasPrefix(name, "sync/atomic.") && !c.IsInvoke() {
+		if r, ok := g.atomicCall(instr, strings.TrimPrefix(name, "sync/atomic."), c, args); ok {
+			return r
+		}
+	}
 	var fc *FuncContract
 	var pc *PkgContracts
 	// a trusted contract declared in the verified function's own package file wins over other packages' declarations
@@ -195,9 +200,74 @@ func (g *FnGen) call(instr ssa.Instruction, c *ssa.CallCommon) Val {
 	return result
 }
 
+// atomicCall models the sync/atomic package functions as plain (sequentially atomic) cell operations.
+func (g *FnGen) atomicCall(instr ssa.Instruction, fn string, c *ssa.CallCommon, args []Val) (Val, bool) {
+	kinds := []string{"Add", "Load", "Store", "Swap", "CompareAndSwap"}
+	kind := ""
+	for _, k := range kinds {
+		if strings.HasPrefix(fn, k) {
+			kind = k
+		}
+	}
+	if kind == "" || len(args) == 0 {
+		return Val{}, false
+	}
+	pt, ok := c.Args[0].Type().Underlying().(*types.Pointer)
+	if !ok {
+		return Val{}, false
+	}
+	el := pt.Elem()
+	bits, signed, isInt := intInfo(el)
+	a := g.addrOf(args[0])
+	g.nilCheck(a, instr.Pos())
+	g.note("sync/atomic." + fn + " modelled as a plain cell operation (sequential semantics)")
+	cur := Val{T: g.load(g.cur, a), S: g.sortOf(el), GT: el}
+	write := func(v string) {
+		g.frameCheck(a, instr.Pos())
+		g.loopFrameCheck(a.Fam, a.Ref, instr.Pos())
+		g.store(g.cur, a, v)
+	}
+	var res Val
+	switch kind {
+	case "Load":
+		res = cur
+	case "Store":
+		write(args[1].T)
+		return Val{}, true
+	case "Swap":
+		old := g.fresh("swapold", cur.S)
+		g.assume(fmt.Sprintf("(= %s %s)", old, cur.T))
+		write(args[1].T)
+		res = Val{T: old, S: cur.S, GT: el}
+	case "Add":
+		if !isInt {
+			return Val{}, false
+		}
+		var sum string
+		if g.mode == "bv" {
+			sum = fmt.Sprintf("(bvadd %s %s)", cur.T, args[1].T)
+		} else {
+			sum = g.wrap(fmt.Sprintf("(+ %s %s)", cur.T, args[1].T), bits, signed)
+		}
+		nv := g.fresh("atomicnew", cur.S)
+		g.assume(fmt.Sprintf("(= %s %s)", nv, sum))
+		write(nv)
+		res = Val{T: nv, S: cur.S, GT: el}
+	case "CompareAndSwap":
+		ok := g.fresh("cas", "Bool")
+		g.assume(fmt.Sprintf("(= %s (= %s %s))", ok, cur.T, args[1].T))
+		write(fmt.Sprintf("(ite %s %s %s)", ok, args[2].T, cur.T))
+		res = Val{T: ok, S: "Bool", GT: types.Typ[types.Bool]}
+	}
+	if v, isVal := instr.(ssa.Value); isVal {
+		res.GT = v.Type()
+	}
+	return res, true
+}
+
 // callAsserts: contract clauses "assert at call C#N: P" and "assert-all-calls [except ...]: P" become
 // obligations at the matching call sites (protocol automata, call-order/dominance properties).
-func (g *FnGen) callAsserts(instr ssa.Instruction, short string, n int) {
+func (g *FnGen) callAsserts(instr ssa.Instruction, short string, n int, args []Val) {
 	if g.dry {
 		return
 	}
@@ -227,6 +297,9 @@ func (g *FnGen) callAsserts(instr ssa.Instruction, short string, n int) {
 			continue
 		}
 		env := g.localEnv(instr.Block(), nil)
+		for i, a := range args {
+			env.vars[fmt.Sprintf("arg%d", i)] = a
+		}
 		name := fmt.Sprintf("callsite/%s#%d/assert#%d", short, n, k)
 		if ca.C.Label != "" {
 			name = fmt.Sprintf("callsite/%s#%d/assert:%s", short, n, ca.C.Label)
